@@ -18,8 +18,10 @@ PROPS['C19'] = dict(
     harness=['h_int.c', 'h_int_ext.c'],
     # 'clang': the library (and with it the exported copies of the inline functions, which h_int_ext.c calls) compiled by clang 14:
     # compiler-conditional code (__has_builtin, version tests) takes its other arm there (seeded change C19-I)
-    configs=lambda tier: [dict(name='mt', harness=['h_mt_codec.c'], hflags=['-DVF_MT=19'], flavour='tsan', nworkers=1), dict(name='default'), dict(name='clang', libcc='clang', nworkers=4), dict(name='o2', libflavour='san-o2', libdrop=['-fno-strict-aliasing'], nworkers=4)],
-    parallel_configs=4,
+    configs=lambda tier: [dict(name='mt', harness=['h_mt_codec.c'], hflags=['-DVF_MT=19'], flavour='tsan', nworkers=1), dict(name='default'), dict(name='clang', libcc='clang', nworkers=4), dict(name='o2', libflavour='san-o2', libdrop=['-fno-strict-aliasing'], nworkers=4),
+                          # the caller's rounding mode as a hidden input (seeded change C19-J): every case runs under one of the four rounding modes
+                          dict(name='fenv', hflags=['-DVF_FENV_ROTATE'], nworkers=4)],
+    parallel_configs=5,
     level='exploration',
     rule='inputs are enumerated (exhaustive ranges, k^2 and k^2+-1, 2^n and 2^n+-1, all pairs <1024) or drawn at random with '
          'uniformly distributed bit length; each is judged by exact integer arithmetic (64/128-bit squares, independent binary gcd, '
@@ -65,3 +67,18 @@ def _with_mt(spec, n, extra=()):
 for _n in _MT_READY:
     # C10, C11: the library's own fallback bodies (every A_HAVE_* switch off) run under the monitor as well
     _with_mt(PROPS['C%02d' % _n], _n, [dict(name='mt-fallback', have=[])] if _n in (10, 11) else ())
+
+# the caller's floating-point rounding mode as a hidden input (seeded change C19-J): the properties whose results are integers, bytes,
+# links or sequences get a configuration "fenv" in which every case runs under one of the four rounding modes (half of the cases).
+# C19 names its own (all cases). The numeric properties are not run this way: their accuracy clauses are stated for round-to-nearest.
+_FENV = [1, 2, 3, 4, 5, 6, 7, 17, 18]
+
+
+def _with_fenv(spec):
+    base = spec['configs'] if 'configs' in spec else (lambda tier: [dict(name='default')])
+    spec['configs'] = lambda tier: base(tier) + [dict(name='fenv', hflags=['-DVF_FENV_ROTATE'], nworkers=4, of=8)]
+    spec['parallel_configs'] = spec.get('parallel_configs', 1) + 1
+
+
+for _n in _FENV:
+    _with_fenv(PROPS['C%02d' % _n])
